@@ -268,7 +268,13 @@ func runL1Once(c Case, ev *evid.Collector) (vs []*evid.Violation, inconclusive s
 				fn()
 			}
 			if len(rel) < l1Slots && slotLeak == nil {
-				slotLeak = evid.V("throttle-slot-leaked-after-short-read-retry", "after logical request %d (%s %s) had completed and was closed, host %s has only %d of its %d concurrency slots free: "+
+				sig := "throttle-slot-leaked"
+				for _, e := range w.m.Entries()[lr.start:lr.end] {
+					if e.Fault == "truncate" {
+						sig = "throttle-slot-leaked-after-short-read-retry"
+					}
+				}
+				slotLeak = evid.V(sig, "after logical request %d (%s %s) had completed and was closed, host %s has only %d of its %d concurrency slots free: "+
 					"a slot taken for this request was never released (with the default of 3 slots per host the 4th request would wait forever)\n%s",
 					len(lrs)-1, rq.Method, rq.Target, short(n), len(rel), l1Slots, dumpLog(w.m.Entries()[lr.start:lr.end]))
 			}
